@@ -1079,6 +1079,7 @@ func TestVerifC04(t *testing.T) {
 		vcOneCase(o, r, op, vcGenMsg(r, op))
 	}
 
+	vcHistoryOracle(o, r)
 	vcFamilyOracle(o, r)
 }
 
